@@ -6,7 +6,9 @@ CONSTANTS
   Insts = {"A", "B"}
   Tables = {"small", "large", "extreme"}
   ExtremeFrom = 3
+  Profiles = {"default"}
+  Rejectable = {}
 INVARIANTS TypeOK BoundIsThreshold KeepIsThreshold RateLE1KeepsAll InstancesAgree NestedAnswers
-PROPERTIES AskingIsPure ConfigureIsLocal
+PROPERTIES AskingIsPure ConfigureIsLocal ConfigureTakesEffect
 ACTION_CONSTRAINT Dump
 VIEW View
